@@ -89,6 +89,14 @@ func genRuns(r *simcore.RNG, n int, style string) []Run {
 		if n%5 > 0 {
 			runs = append(runs, Run{n % 5, 1})
 		}
+	case "chunks": // large outputs: a few sizes, many items
+		c := pick(r, []int{997, 4096, 256, 10000, 65536})
+		if n/c > 0 {
+			runs = append(runs, Run{c, n / c})
+		}
+		if n%c > 0 {
+			runs = append(runs, Run{n % c, 1})
+		}
 	case "small": // what marching cubes does: 0..5 per write
 		left := n
 		for left > 0 {
@@ -325,6 +333,35 @@ func planC11(tier string, root *simcore.RNG) *plan {
 		}
 		id++
 		pl.scenarios = append(pl.scenarios, sc)
+	}
+	// large outputs: counts around 2^16 (and 2^17, thorough 2^20) for every sink
+	if tier != "replay" {
+		reps := 1
+		big := []int{65535, 65536, 65537, 65536 + 255, 65536 + 256, 131073}
+		if tier == "thorough" {
+			reps = 4
+			big = append(big, 1<<20+1, 262144, 200000)
+		}
+		for _, sink := range sinks {
+			for k := 0; k < reps; k++ {
+				r := root.Fork()
+				cnt := pick(r, big)
+				if k == 0 {
+					cnt = 65536 + r.Intn(3)
+				}
+				if cnt > 300000 && (sink == "dxf" || sink == "svg" || sink == "3mf") {
+					cnt = 200000 + r.Intn(3)
+				}
+				j, victims := scriptJob(r, 1, tier, []string{sink}, cnt, []string{"chunks", "chunks", "one"})
+				j.Name = ""
+				sc := &Scenario{Prop: "C11", Family: "pipeline", Seed: r.Uint64(), Env: genEnv(r), Groups: [][]Job{{j}}, Note: "large"}
+				sc.Sites = activeSites(r, j.Sink, false)
+				delete(sc.Sites, "auto")
+				sc.Sched = genSched(r, victims)
+				sc.StepCap = 4000000
+				pl.scenarios = append(pl.scenarios, sc)
+			}
+		}
 	}
 	if tier == "thorough" {
 		// exhaustive over item counts 0..1100 x three canonical partitions, single producer
